@@ -304,6 +304,7 @@ def units():
         FunctionUnit(SimplifyBlock()),
         FunctionUnit(MapContract("ASTPostSimplifyMapper.map_IfThenElse", Node.is_IfThenElse)),
         FunctionUnit(PostBlock()),
+        FunctionUnit(MapContract("ASTPostSimplifyMapper.map_ForLoop", Node.is_ForLoop)),
         FunctionUnit(MapContract("ASTPostSimplifyMapper.map_StatementWrapper", Node.is_Leaf)),
         FunctionUnit(PostCall()),
         FunctionUnit(SimplifyAst()),
